@@ -98,6 +98,10 @@ class SimSocket(_RealSocket):
                     p = w.procs.get(self._spid)
                     if p is not None and p.alive and self._sfd in p.fds:
                         w.stats['gc_close'] += 1
+                        if isinstance(self._sofd, Stream) and not self._sofd.closed and self._sofd.refs == 1:
+                            # a *connected* socket whose last descriptor is closed only because the object was collected
+                            w.stats['gc_close_connected'] += 1
+                            w.gc_closed_labels.append(self._sofd.label)
                         if p.fds[self._sfd] is not self._sofd:
                             w.closes_bad.append((p.pid, self._sfd, 'gc-stray'))
                         w.ev('gc', 'close', 'fd=%d' % self._sfd)
